@@ -13,7 +13,9 @@ Open Scope Z_scope.
      Read chk k      res := tx.Model(..).Count(&n); same
      Child b chk rcv k   err := tx.Transaction(b); if chk && err != nil { return err }
                      (rcv: the call is wrapped in a recover(), a panic of b is swallowed;
-                      cx: the call is tx.WithContext(ctx).Transaction(b) with a fresh cancellable ctx)
+                      cx: the call is tx.WithContext(ctx).Transaction(b) with a fresh cancellable ctx;
+                      nn: the call is tx.Session(&Session{DisableNestedTransaction: true}).Transaction(b):
+                      nested transactions are disabled for this call and everything below it)
      Cancel k        cancel() of the innermost enclosing block's own ctx
      Save n k        if err := tx.SavePoint(n).Error; err != nil { return err }
      RbTo n k        if err := tx.RollbackTo(n).Error; err != nil { return err }          *)
@@ -26,7 +28,7 @@ Inductive prog :=
 | Done (o : outcome)
 | Write (m : Z) (chk : bool) (k : prog)
 | Read (chk : bool) (k : prog)
-| Child (b : prog) (chk : bool) (rcv : bool) (cx : bool) (k : prog)
+| Child (b : prog) (chk : bool) (rcv : bool) (cx : bool) (nn : bool) (k : prog)
 | Save (n : Z) (k : prog)
 | RbTo (n : Z) (k : prog)
 | Cancel (k : prog).
@@ -40,18 +42,19 @@ Fixpoint scoped (avail : list Z) (p : prog) : bool :=
   match p with
   | Done _ => true
   | Write _ _ k | Read _ k => scoped avail k
-  | Child b _ _ _ k => scoped [] b && scoped avail k
+  | Child b _ _ _ _ k => scoped [] b && scoped avail k
   | Cancel k => scoped avail k
   | Save n k => scoped (n :: avail) k
   | RbTo n k => memz n avail && scoped (cutz n avail) k
   end.
 
-(* no block cancels a context: the domain of the theorems *)
-Fixpoint no_cancel (p : prog) : bool :=
+(* no block cancels a context and no call changes the nested-transaction setting on the way:
+   the domain of the theorems *)
+Fixpoint plain_prog (p : prog) : bool :=
   match p with
   | Done _ => true
-  | Write _ _ k | Read _ k | Save _ k | RbTo _ k => no_cancel k
-  | Child b _ _ _ k => no_cancel b && no_cancel k
+  | Write _ _ k | Read _ k | Save _ k | RbTo _ k => plain_prog k
+  | Child b _ _ _ nn k => negb nn && plain_prog b && plain_prog k
   | Cancel _ => false
   end.
 
@@ -61,7 +64,7 @@ Fixpoint cancel_ok (inside : bool) (p : prog) : bool :=
   match p with
   | Done _ => true
   | Write _ _ k | Read _ k | Save _ k | RbTo _ k => cancel_ok inside k
-  | Child b _ _ cx k => cancel_ok (cx || inside) b && cancel_ok inside k
+  | Child b _ _ cx _ k => cancel_ok (cx || inside) b && cancel_ok inside k
   | Cancel k => inside && cancel_ok inside k
   end.
 
@@ -76,7 +79,8 @@ Inductive obs :=
 | OR (ret : cls) (n : Z)
 | OS (n : Z) (ret : cls)
 | ORb (n : Z) (ret : cls)
-| OC (entered : bool) (body : list obs) (exit ret : cls).
+| OC (entered : bool) (body : list obs) (exit ret : cls)
+| ONN (o : obs).   (* a nested call made with nested transactions disabled for it (a fact of the program) *)
 
 Inductive opkind := KBegin | KSave | KRbTo | KStmt | KCommit | KRollback.
 (* c_wrap: the pool is a ConnPoolBeginner whose BeginTx returns a wrapper around *sql.Tx (nil on failure);
@@ -141,17 +145,19 @@ Record st := mkSt {
   s_gen : nat;                     (* save-point names generated so far *)
   s_txlog : list txcall;           (* newest first *)
   s_fl : flags;
-  s_dead : bool                    (* the context of the block being run has been cancelled *)
+  s_dead : bool;                   (* the context of the block being run has been cancelled *)
+  s_nonest : bool                  (* DisableNestedTransaction was set by a session on the way to the block being run *)
 }.
 
-Definition init_st (db : tbl) : st := mkSt db None [] 0 [] (mkFl false false) false.
+Definition init_st (db : tbl) : st := mkSt db None [] 0 [] (mkFl false false) false false.
 
-Definition set_tx (s : st) (t : option txs) := mkSt (s_db s) t (s_ops s) (s_gen s) (s_txlog s) (s_fl s) (s_dead s).
-Definition set_db (s : st) (d : tbl) := mkSt d (s_tx s) (s_ops s) (s_gen s) (s_txlog s) (s_fl s) (s_dead s).
-Definition set_fl (s : st) (f : flags) := mkSt (s_db s) (s_tx s) (s_ops s) (s_gen s) (s_txlog s) f (s_dead s).
-Definition set_dead (s : st) (d : bool) := mkSt (s_db s) (s_tx s) (s_ops s) (s_gen s) (s_txlog s) (s_fl s) d.
-Definition log_tx (s : st) (c : txcall) := mkSt (s_db s) (s_tx s) (s_ops s) (s_gen s) (c :: s_txlog s) (s_fl s) (s_dead s).
-Definition next_gen (s : st) := mkSt (s_db s) (s_tx s) (s_ops s) (S (s_gen s)) (s_txlog s) (s_fl s) (s_dead s).
+Definition set_tx (s : st) (t : option txs) := mkSt (s_db s) t (s_ops s) (s_gen s) (s_txlog s) (s_fl s) (s_dead s) (s_nonest s).
+Definition set_db (s : st) (d : tbl) := mkSt d (s_tx s) (s_ops s) (s_gen s) (s_txlog s) (s_fl s) (s_dead s) (s_nonest s).
+Definition set_fl (s : st) (f : flags) := mkSt (s_db s) (s_tx s) (s_ops s) (s_gen s) (s_txlog s) f (s_dead s) (s_nonest s).
+Definition set_dead (s : st) (d : bool) := mkSt (s_db s) (s_tx s) (s_ops s) (s_gen s) (s_txlog s) (s_fl s) d (s_nonest s).
+Definition set_nonest (s : st) (d : bool) := mkSt (s_db s) (s_tx s) (s_ops s) (s_gen s) (s_txlog s) (s_fl s) (s_dead s) d.
+Definition log_tx (s : st) (c : txcall) := mkSt (s_db s) (s_tx s) (s_ops s) (s_gen s) (c :: s_txlog s) (s_fl s) (s_dead s) (s_nonest s).
+Definition next_gen (s : st) := mkSt (s_db s) (s_tx s) (s_ops s) (S (s_gen s)) (s_txlog s) (s_fl s) (s_dead s) (s_nonest s).
 Definition flag_rb (s : st) := set_fl s (mkFl true (x_drop (s_fl s))).
 Definition flag_drop (s : st) := set_fl s (mkFl (x_rb (s_fl s)) true).
 
@@ -179,7 +185,7 @@ Variable fault : nat -> bool.   (* which driver operations (by index) fail *)
 (* one driver operation: logged; fails iff its index is faulted *)
 Definition issue (k : opkind) (s : st) : bool * st :=
   let f := fault (length (s_ops s)) in
-  (f, mkSt (s_db s) (s_tx s) ((k, f) :: s_ops s) (s_gen s) (s_txlog s) (s_fl s) (s_dead s)).
+  (f, mkSt (s_db s) (s_tx s) ((k, f) :: s_ops s) (s_gen s) (s_txlog s) (s_fl s) (s_dead s) (s_nonest s)).
 
 (* a data statement on handle h: getInstance copies the handle's Error and every callback is
    guarded by db.Error == nil; the implicit BeginTransaction finds a Tx pool
@@ -254,7 +260,7 @@ Definition h_end (commit : bool) (h : option err) (s : st) : option err * st :=
    so what they add stays on the copy and the enclosing handle h is returned unchanged *)
 Definition nested0 (body : option err -> st -> res * list obs * option err * st)
                    (h : option err) (s : st) : res * obs * option err * st :=
-  if c_nonest C then
+  if c_nonest C || s_nonest s then
     let '(r, l, _, s1) := body h s in     (* fc(db.Session(...)): the child handle copies h *)
     (r, OC true l (cls_of r) (cls_of r), h, s1)
   else
@@ -275,12 +281,17 @@ Definition nested0 (body : option err -> st -> res * list obs * option err * st)
     end.
 
 (* cx: the receiver is tx.WithContext(ctx) with a fresh ctx: the block, its SAVEPOINT and its
-   ROLLBACK TO run under ctx; afterwards the enclosing context is in force again *)
-Definition nested (cx : bool) (body : option err -> st -> res * list obs * option err * st)
+   ROLLBACK TO run under ctx; afterwards the enclosing context is in force again.
+   nn: the receiver is tx.Session(&Session{DisableNestedTransaction: true}): its private Config says
+   so, the block's handle and every handle derived from it inherit it; the enclosing handle does not *)
+Definition nested (cx nn : bool) (body : option err -> st -> res * list obs * option err * st)
                   (h : option err) (s : st) : res * obs * option err * st :=
-  if cx then
-    let '(r, o, h', s') := nested0 body h (set_dead s false) in (r, o, h', set_dead s' (s_dead s))
-  else nested0 body h s.
+  let s1 := if cx then set_dead s false else s in
+  let s2 := if nn then set_nonest s1 true else s1 in
+  let '(r, o, h', s') := nested0 body h s2 in
+  let s3 := if nn then set_nonest s' (s_nonest s) else s' in
+  let s4 := if cx then set_dead s3 (s_dead s) else s3 in
+  (r, (if nn then ONN o else o), h', s4).
 
 Fixpoint run_body (p : prog) (h : option err) (s : st) : res * list obs * option err * st :=
   match p with
@@ -302,8 +313,8 @@ Fixpoint run_body (p : prog) (h : option err) (s : st) : res * list obs * option
     | _, _ => let '(r, l, h2, s2) := run_body k h s1 in (r, o :: l, h2, s2)
     end
   | Cancel k => run_body k h (set_dead s true)
-  | Child b chk rcv cx k =>
-    let '(r, o, h1, s1) := nested cx (run_body b) h s in
+  | Child b chk rcv cx nn k =>
+    let '(r, o, h1, s1) := nested cx nn (run_body b) h s in
     match r with
     | ROk => let '(r', l, h2, s2) := run_body k h1 s1 in (r', o :: l, h2, s2)
     | RErr e =>
